@@ -4,10 +4,10 @@ cd "$(dirname "$0")"
 . ./env.sh
 cp -f /repo/go.sum go.sum
 mkdir -p .work/bin evidence replays
-go build -tags verif ./... || exit 1
-for d in cmd/*/; do
-  id=$(basename "$d")
-  go build -tags verif -o .work/bin/$id ./cmd/$id || exit 1
-  if [ -f "$d/RACE" ]; then go build -race -tags verif -o .work/bin/$id.race ./cmd/$id || exit 1; fi
+fail=0
+for id in $(jq -r '.checks[].property_id' MANIFEST.json | tr 'A-Z' 'a-z'); do
+  go build -tags verif -o .work/bin/$id ./cmd/$id || { echo "setup: build of $id failed"; fail=1; }
+  if [ -f "cmd/$id/RACE" ]; then go build -race -tags verif -o .work/bin/$id.race ./cmd/$id || { echo "setup: race build of $id failed"; fail=1; }; fi
 done
-echo setup ok
+[ $fail -eq 0 ] && echo setup ok
+exit $fail
